@@ -24,7 +24,9 @@ LEVEL = 'exploration'
 TECHNIQUE = ('runtime monitoring: invariant asserted at a hook after every '
              'sweep_move / flip_edge (class-level wrappers), comparing the '
              'automaton\'s tracked state with the true residual syndrome '
-             'computed by own GF(2) arithmetic from the error in hand')
+             'computed by own GF(2) arithmetic from the error in hand; '
+             'returned corrections and the caller\'s syndrome arrays '
+             'compared with their snapshots after later decodes')
 MANIFEST_TEXT = ('Geometry is checked on every edge of every lattice size '
                  'below the bound for both sweep decoders; the tracked-state '
                  'invariant is evaluated after each automaton step of decodes '
